@@ -27,6 +27,7 @@ func init() {
 		Explanation: "R1 co-update (loop-header φ comparison in the path evaluator — the function of package parsepath that ranges over a protopath.Path and moves a protoreflect.Value cursor): on every path round the loop, if the value cursor changes then the descriptor cursor changes too (a step may retarget the descriptor without moving the value, never the reverse). " +
 			"R2 descriptor transfer (the part of the planned R2 that is decidable from the evaluator alone): a value cursor taken out of a protoreflect.Map comes with a descriptor cursor taken from FieldDescriptor.MapValue(); one taken out of a List does not. " +
 			"R3 exhaustiveness: the evaluator's step-kind switch covers every protopath.StepKind constant; the parser's token switch covers every token-kind constant of the package except those compared elsewhere (end of input) and has an error default; ParsePath returns a path only on a path dominated by the end-of-input test and a true state predicate. " +
+			"R14 no value returned by a function of the parser package derives from a sync.Pool buffer (results stay valid after later and concurrent evaluations). " +
 			"R13 (T24/T25 over gcetcbendorsement/parsepath) a slice is converted to an array only with its length established; an integer division or remainder is never by a value that may be zero. " +
 			"R12 (T21 over gcetcbendorsement/parsepath) a difference of two non-constant positions that feeds a strings.Repeat count, a make size, an index or a slice bound is known non-negative (guarded or clamped). " +
 			"R11 (= C03.R9) the CLI's output back end replaces an existing output file wholly, so the file left by inspect --out is the field bytes and nothing else. " +
@@ -61,6 +62,39 @@ func runC19(c *Ctx) {
 		c.S.Floor("R12", "differences of positions feeding counts, sizes or bounds in the parser package", 1, c.guardedSubRule("R12", fns, t21Reasons, os.Getenv("VCHECK_SURVEY") != ""))
 		// R13 (T24/T25 in the parser package): no slice is converted to an array without its length established, and no
 		// division is by a value that may be zero — the other two run-time panics a path or a form string could reach
+		// R14: what the package's functions return is not storage recycled through a sync.Pool — a buffer that went back
+		// to the pool is handed to the next evaluation while the first caller still reads its result
+		{
+			psl := flow.NewSlicer(c.P)
+			isPoolGet := func(v ssa.Value) bool {
+				call, ok := v.(*ssa.Call)
+				return ok && calleeIs(call, "(*sync.Pool).Get")
+			}
+			nRet, nPool := 0, 0
+			for _, f := range fns {
+				if f.Blocks == nil {
+					continue
+				}
+				nPool += len(callsIn(f, func(call ssa.CallInstruction) bool { return calleeIs(call, "(*sync.Pool).Get") }))
+				bad := ""
+				for _, b := range f.Blocks {
+					ret, ok := b.Instrs[len(b.Instrs)-1].(*ssa.Return)
+					if !ok {
+						continue
+					}
+					for _, r := range ret.Results {
+						nRet++
+						if psl.Derives(r, isPoolGet) {
+							bad = c.pos(ret.Pos())
+						}
+					}
+				}
+				if bad != "" {
+					c.S.Bad("R14", load.FuncName(f)+":result does not alias pooled storage", bad, "a value returned by "+load.FuncName(f)+" derives from a sync.Pool buffer: once the buffer is put back (or handed out again) a later or concurrent evaluation overwrites the result the first caller still holds")
+				}
+			}
+			c.S.OK("R14", "parser package:results and pooled storage", "", fmt.Sprintf("%d returned values examined, %d sync.Pool.Get calls in the package", nRet, nPool), false)
+		}
 		c.S.OK("R13", "parser package:slice-to-array conversions and divisors", "", fmt.Sprintf("%d conversions of a slice to an array and %d divisions by a non-constant examined", c.sliceToArrayRule("R13", fns), c.divisorRule("R13", fns)), false)
 	}
 	gcePkg := repoPath("gcetcbendorsement")
